@@ -25,6 +25,12 @@ pub enum Stmt {
     Merge(i64),
     /// MATCH (n:C {id:$id}) SET n.w = n.v   (copy computed from a read value)
     Copy(i64),
+    /// MERGE (s:S$k): conditional create of a node without properties (its commit
+    /// publishes no run, only the node table)
+    MergeBare(i64),
+    /// MATCH (j:C {id:$id}) WHERE NOT j:Taken SET j:Taken CREATE (:Receipt$id): a claim by
+    /// label; at most one receipt per job
+    Claim(i64),
 }
 
 impl Stmt {
@@ -33,6 +39,8 @@ impl Stmt {
             Stmt::Inc(id) => format!("MATCH (n:C {{id: {id}}}) SET n.v = n.v + 1"),
             Stmt::Merge(id) => format!("MERGE (n:K {{id: {id}}})"),
             Stmt::Copy(id) => format!("MATCH (n:C {{id: {id}}}) SET n.w = n.v"),
+            Stmt::MergeBare(k) => format!("MERGE (s:S{k})"),
+            Stmt::Claim(id) => format!("MATCH (j:C {{id: {id}}}) WHERE NOT j:Taken SET j:Taken CREATE (:Receipt{id})"),
         }
     }
 }
@@ -65,10 +73,12 @@ impl Check for AutoCommitCheck {
             let k = rng.range(1, 3) as usize;
             threads.push(
                 (0..k)
-                    .map(|_| match rng.below(10) {
+                    .map(|_| match rng.below(16) {
                         0..=5 => Stmt::Inc(1 + rng.below(2) as i64),
                         6..=8 => Stmt::Merge(7 + rng.below(2) as i64),
-                        _ => Stmt::Copy(1),
+                        9 => Stmt::Copy(1),
+                        10..=12 => Stmt::MergeBare(rng.below(2) as i64),
+                        _ => Stmt::Claim(1 + rng.below(2) as i64),
                     })
                     .collect(),
             );
@@ -165,11 +175,15 @@ impl Check for AutoCommitCheck {
         let outs = outcomes.lock().unwrap().clone();
         let mut want_v: BTreeMap<i64, i64> = BTreeMap::from([(1, 0), (2, 0)]);
         let mut merged: BTreeMap<i64, u32> = BTreeMap::new();
+        let mut merged_bare: BTreeMap<i64, u32> = BTreeMap::new();
+        let mut claims: BTreeMap<i64, u32> = BTreeMap::new();
         let mut failed = 0;
         for (_, s, r) in &outs {
             match (s, r) {
                 (Stmt::Inc(id), Ok(_)) => *want_v.entry(*id).or_default() += 1,
                 (Stmt::Merge(id), Ok(_)) => *merged.entry(*id).or_default() += 1,
+                (Stmt::MergeBare(k), Ok(_)) => *merged_bare.entry(*k).or_default() += 1,
+                (Stmt::Claim(id), Ok(_)) => *claims.entry(*id).or_default() += 1,
                 (_, Err(_)) => failed += 1,
                 _ => {}
             }
@@ -229,6 +243,38 @@ impl Check for AutoCommitCheck {
                 Err(e) => res.viols.push(Viol { class: "final_read_failed".into(), detail: e.message, focus: None, schedule: schedule.clone() }),
             }
         }
+        for (k, n) in &merged_bare {
+            match db.query(&format!("MATCH (s:S{k}) RETURN count(s) AS c")) {
+                Ok(rows) => {
+                    let c = rows.as_array().and_then(|a| a.first()).and_then(|r| r.get("c")).and_then(json_i64).unwrap_or(-1);
+                    if c != 1 {
+                        res.viols.push(Viol {
+                            class: if c > 1 { "duplicate_conditional_create".into() } else { "merge_lost".into() },
+                            detail: format!("{n} acknowledged MERGE (s:S{k}) statements left {c} such nodes"),
+                            focus: None,
+                            schedule: schedule.clone(),
+                        });
+                    }
+                }
+                Err(e) => res.viols.push(Viol { class: "final_read_failed".into(), detail: e.message, focus: None, schedule: schedule.clone() }),
+            }
+        }
+        for (id, n) in &claims {
+            match db.query(&format!("MATCH (r:Receipt{id}) RETURN count(r) AS c")) {
+                Ok(rows) => {
+                    let c = rows.as_array().and_then(|a| a.first()).and_then(|r| r.get("c")).and_then(json_i64).unwrap_or(-1);
+                    if c != 1 {
+                        res.viols.push(Viol {
+                            class: if c > 1 { "claim_granted_twice".into() } else { "claim_lost".into() },
+                            detail: format!("{n} acknowledged claims of job {id} left {c} receipts"),
+                            focus: None,
+                            schedule: schedule.clone(),
+                        });
+                    }
+                }
+                Err(e) => res.viols.push(Viol { class: "final_read_failed".into(), detail: e.message, focus: None, schedule: schedule.clone() }),
+            }
+        }
         drop(db);
         let mut seen = std::collections::BTreeSet::new();
         res.viols.retain(|v| seen.insert(v.class.clone()));
@@ -238,7 +284,7 @@ impl Check for AutoCommitCheck {
         crate::checks::conc::shrink_thread_programs(case)
     }
     fn rule(&self) -> String {
-        "2-4 simulated client threads call ndb_execute_write (the auto-commit entry point the Python/Node bindings use) with read-modify-write statements on two shared counter nodes (SET n.v = n.v + 1), conditional creates (MERGE) on two shared keys and copy statements, under the seeded cooperative scheduler; the gap between snapshot acquisition and writer-lock acquisition inside the entry point spans several scheduling points. Oracle: final counter == number of increments acknowledged with NDB_OK; exactly one node per merged key. evaluations = simulated runs; distinct_nontrivial = distinct context-switch sequences.".into()
+        "2-4 simulated client threads call ndb_execute_write (the auto-commit entry point the Python/Node bindings use) with read-modify-write statements on two shared counter nodes (SET n.v = n.v + 1), conditional creates (MERGE) on two shared keys, conditional creates of property-less nodes (MERGE (s:S), whose commit publishes only the node table), claims by label (WHERE NOT j:Taken SET j:Taken CREATE (:Receipt)) and copy statements, under the seeded cooperative scheduler; the gap between snapshot acquisition and writer-lock acquisition inside the entry point spans several scheduling points. Oracle: final counter == number of increments acknowledged with NDB_OK; exactly one node per merged key or bare label, exactly one receipt per claimed job. evaluations = simulated runs; distinct_nontrivial = distinct context-switch sequences.".into()
     }
     fn nontrivial_set(&self) -> &'static str {
         "schedules"
